@@ -128,6 +128,45 @@ def eval_model_all(base, solver_cmd):
     return [chr(int(x, 16)) for x in vals], secs, out.count("(error")
 
 
+def codon_members(codon):
+    """indices (into the NCBI strings) of the concrete DNA codons matched by an IUPAC codon"""
+    onehot = {"A": 8, "C": 4, "G": 2, "T": 1}
+    out = set()
+    for d in range(64):
+        if all(IUPAC[codon[j]] & onehot[b] for j, b in enumerate((B1[d], B2[d], B3[d]))):
+            out.add(d)
+    return out
+
+
+def reverse_spec(solver_cmd):
+    """per amino letter X: sat iff some IUPAC codon (c0,c1,c2) has exactly X's codons as members"""
+    onehot = {"A": 8, "C": 4, "G": 2, "T": 1}
+    L = ["(set-logic ALL)", "(declare-const c0 (_ BitVec 4))", "(declare-const c1 (_ BitVec 4))", "(declare-const c2 (_ BitVec 4))"]
+    letters = sorted(set(AAS))
+    script = "\n".join(L) + "\n"
+    for X in letters:
+        conj = []
+        for d in range(64):
+            mem = "(and %s)" % " ".join("(not (= (bvand %s c%d) #x0))" % (bv4(onehot[b]), j) for j, b in enumerate((B1[d], B2[d], B3[d])))
+            conj.append(mem if AAS[d] == X else "(not %s)" % mem)
+        script += "(push 1)\n(assert (and %s))\n(check-sat)\n(get-value (c0 c1 c2))\n(pop 1)\n" % " ".join(conj)
+    out, secs = solve(solver_cmd, script)
+    lines = [l.strip() for l in out.splitlines() if l.strip()]
+    verdicts = [l for l in lines if l in ("sat", "unsat", "unknown")]
+    if len(verdicts) != len(letters) or "unknown" in verdicts:
+        return None
+    models = re.findall(r"\(\(c0 #x(.)\)\s*\(c1 #x(.)\)\s*\(c2 #x(.)\)\)", out.replace("\n", " "))
+    res = {}
+    mi = 0
+    for X, v in zip(letters, verdicts):
+        w = None
+        if v == "sat" and mi < len(models):
+            w = "".join(NIB2CH[int(x, 16)] for x in models[mi])
+            mi += 1
+        res[X] = (v, w)
+    return res
+
+
 def stage(tier, seed, scratch):
     t0 = time.time()
     R = {"name": "c14-smt", "status": "held", "lines": [], "violations": []}
@@ -177,11 +216,13 @@ def stage(tier, seed, scratch):
     real = {}
     invalid_ok = True
     mism = []
+    reverse_real = {}
     for line in p.stdout.splitlines():
         f = line.split()
         if f[0] == "MISMATCH":
             mism.append(line)
         elif f[0] == "R":
+            reverse_real[f[1]] = f[2]
             continue
         elif f[0] == "3":
             real[int(f[1], 16)] = f[2]
@@ -213,13 +254,46 @@ def stage(tier, seed, scratch):
             v = sum(IUPAC[ch] << (4 * i) for i, ch in enumerate(codon))
             path = _write_replay("%s-%s" % (k, codon.replace("-", "_")), {"codon": codon, "real": real[v], "model": z3res[k]["model_answer"], "query": k})
             R["violations"].append({"harness": "c14_%s" % k, "tag": "C14.%s.%s" % (k, codon), "replay": path})
+    # ---- reverse translation: the solver decides, per amino acid X, whether an IUPAC codon exists whose
+    # member set is exactly the set of DNA codons coding for X (the specification); the real
+    # try_to_codon is evaluated natively on all 21 amino symbols (its whole domain)
+    rev = reverse_spec(["z3", "-in"])
+    rev2 = reverse_spec(["cvc5", "--lang", "smt2", "--incremental", "--produce-models"])
+    R["reverse"] = {}
+    if rev is None or rev2 is None or {k: v[0] for k, v in rev.items()} != {k: v[0] for k, v in rev2.items()}:
+        R.update(status="inconclusive", detail="reverse-translation queries: solver error or z3/cvc5 disagreement")
+        return R
+    for X, (verdict, witness) in sorted(rev.items()):
+        got = reverse_real.get(X)
+        R["reverse"][X] = {"exact_codon_exists": verdict == "sat", "real": got}
+        if got is None:
+            R.update(status="inconclusive", detail="no native reverse-translation line for %r" % X)
+            return R
+        ok = True
+        if verdict == "sat":
+            # a codon must be returned, it must match all and only X's codons, and translate back to X
+            if got == "?":
+                ok = False
+            else:
+                members = codon_members(got)
+                if members != {d for d in range(64) if AAS[d] == X}:
+                    ok = False
+                v = sum(IUPAC[ch] << (4 * i) for i, ch in enumerate(got))
+                if real.get(v) != X:
+                    ok = False
+        else:
+            if got != "?":
+                ok = False
+        if not ok:
+            path = _write_replay("reverse-%s" % ("stop" if X == "*" else X), {"amino": X, "real": got, "exact_codon_exists": verdict == "sat", "witness": witness})
+            R["violations"].append({"harness": "c14_reverse", "tag": "C14.reverse.%s" % X, "replay": path})
     if R["violations"]:
         R["status"] = "violation"
     R["lines"].append("[C14] table rows=%d; z3/cvc5: %s; encoding == real function on 4096 codons; %d native lines for other lengths"
                       % (len(rows), json.dumps(R["queries"]), R["traces_validated_against_impl"] - 4096))
     R["wall_s"] = round(time.time() - t0, 1)
     R["smt_file"] = smt_path
-    R["evaluations"] = 2 * len(queries) + 4096
+    R["evaluations"] = 2 * len(queries) + 4096 + 2 * 21
     R["distinct_nontrivial"] = len(queries) + sum(1 for v in real.values() if v not in "?!")
     R["samples"] = [{"query": k, "z3": z3res[k]["verdict"], "cvc5": cvres[k]["verdict"]} for k in queries] + \
                    [{"codon": "".join(NIB2CH[(v >> (4 * i)) & 15] for i in range(3)), "model": vals[v], "real": real[v]} for v in (0x8f2, 0x111, 0xa25, 0xf3c)]
